@@ -126,13 +126,20 @@ def run(names, jobs=8, timeout=3600):
     for n in names:
         cmd += ["--harness", n]
     t0 = time.time()
+    # own process group, so that a timeout also ends the cbmc children cargo-kani started
+    import signal
+    pr = subprocess.Popen(cmd, cwd=d, env=env(), stdout=subprocess.PIPE, stderr=subprocess.STDOUT, text=True,
+                          start_new_session=True)
     try:
-        p = subprocess.run(cmd, cwd=d, env=env(), capture_output=True, text=True, timeout=timeout)
-        out = p.stdout + "\n" + p.stderr
-        rc = p.returncode
-    except subprocess.TimeoutExpired as e:
-        out = (e.stdout or b"").decode("utf-8", "replace") if isinstance(e.stdout, bytes) else (e.stdout or "")
-        out += "\nTIMEOUT after %ds" % timeout
+        out, _ = pr.communicate(timeout=timeout)
+        rc = pr.returncode
+    except subprocess.TimeoutExpired:
+        try:
+            os.killpg(pr.pid, signal.SIGKILL)
+        except Exception:
+            pass
+        out, _ = pr.communicate()
+        out = (out or "") + "\nTIMEOUT after %ds" % timeout
         rc = 124
     wall = time.time() - t0
     res = parse_terse(out)
